@@ -15,9 +15,11 @@ class Asyncify(ast.NodeTransformer):
     await _vt.call(...), with -> async with _vt.cm(...), scheduling point before every statement).
     Already-async functions that are selected only get scheduling points and call dispatch."""
 
-    def __init__(self, want, points=True):
+    def __init__(self, want, points=True, local_rule=False, want_gen=lambda qual: False):
         self.want = want
+        self.want_gen = want_gen       # sync generator functions to turn into async generators (consumer drives them with async for)
         self.points = points
+        self.local_rule = local_rule   # P2 locality rule: no point before statements that only touch locals
         self.infn = 0
         self.stack = []
         self.transformed = []
@@ -54,7 +56,7 @@ class Asyncify(ast.NodeTransformer):
             return n
         is_gen = (not was_async) and any(isinstance(x, (ast.Yield, ast.YieldFrom)) for x in _own_nodes(n))
         is_ctx = any(isinstance(d, ast.Attribute) and d.attr == 'contextmanager' for d in n.decorator_list)
-        if is_gen and not is_ctx:
+        if is_gen and not is_ctx and not self.want_gen(qual):
             return n   # plain sync generators consumed by library code stay atomic
         self.transformed.append(qual)
         self.stack.append(n.name)
@@ -67,7 +69,7 @@ class Asyncify(ast.NodeTransformer):
             if isinstance(d, ast.Attribute) and d.attr == 'contextmanager':
                 d = ast.Attribute(d.value, 'asynccontextmanager', ast.Load())
             decos.append(d)
-        if not was_async:
+        if not was_async and not (is_gen and not is_ctx):
             decos.append(ast.Attribute(ast.Name('_vt', ast.Load()), 'mark', ast.Load()))
         new = ast.AsyncFunctionDef(n.name, n.args, n.body, decos, n.returns, getattr(n, 'type_comment', None))
         if sys.version_info >= (3, 12):
@@ -90,7 +92,8 @@ class Asyncify(ast.NodeTransformer):
             if isinstance(s, ast.Expr) and isinstance(s.value, ast.Constant) and isinstance(s.value.value, str):
                 out.append(s)
                 continue
-            if self.points and not isinstance(s, (ast.FunctionDef, ast.AsyncFunctionDef, ast.ClassDef, ast.Pass, ast.Global, ast.Nonlocal)):
+            if self.points and not isinstance(s, (ast.FunctionDef, ast.AsyncFunctionDef, ast.ClassDef, ast.Pass, ast.Global, ast.Nonlocal)) \
+                    and not (self.local_rule and _is_local(s)):
                 out.append(self._sp(s))
             out.append(self.visit(s))
         return out
@@ -113,6 +116,13 @@ class Asyncify(ast.NodeTransformer):
                     setattr(node, field, self.visit(value))
             return node
         return super().generic_visit(node)
+
+    def visit_For(self, n):
+        if not self.infn:
+            return self.generic_visit(n)
+        self.generic_visit(n)
+        it = ast.Call(ast.Attribute(ast.Name('_vt', ast.Load()), 'aiter_', ast.Load()), [n.iter], [])
+        return ast.copy_location(ast.AsyncFor(n.target, it, n.body, n.orelse, getattr(n, 'type_comment', None)), n)
 
     def visit_With(self, n):
         if not self.infn:
@@ -158,3 +168,20 @@ def _own_nodes(fn):
             if isinstance(c, (ast.FunctionDef, ast.AsyncFunctionDef, ast.ClassDef, ast.Lambda)):
                 continue
             todo.append(c)
+
+
+def _is_local(s):
+    """statements that read/write function-local names only: they commute with every other thread"""
+    if isinstance(s, (ast.Continue, ast.Break)):
+        return True
+    if isinstance(s, ast.Raise):
+        return s.exc is None or isinstance(s.exc, ast.Name)
+    if isinstance(s, ast.Return):
+        return s.value is None or isinstance(s.value, (ast.Name, ast.Constant))
+    if isinstance(s, ast.Assign):
+        return all(isinstance(t, ast.Name) for t in s.targets) and isinstance(s.value, (ast.Constant, ast.Name))
+    if isinstance(s, ast.Try):
+        return True    # the points are in front of the statements inside
+    if isinstance(s, ast.While):
+        return isinstance(s.test, ast.Constant)
+    return False
